@@ -129,6 +129,8 @@ func checkC35(c *Ctx, r *Report) {
 	r.rule("C35.R1", "positions found in one string slice only aligned strings", 8)
 	r.rule("C35.R2", "regexps with letters are (?i); keyword comparisons apply to lowered text; keyword constants are lower-case", 20)
 	r.rule("C35.R3", "computed indexes into token / sub-match slices are bounded by len on every path", 15)
+	r.rule("C35.R4", "asciiLower, the length-preserving lowering the index rule relies on, maps the byte at each position to the same position", 2)
+	checkAsciiLower(m, r)
 
 	fns := m.FuncsInPkg(pkgSQL)
 	if len(fns) < 20 {
@@ -410,4 +412,86 @@ func indexInductionPhi(v ssa.Value) (*ssa.Phi, bool) {
 	}
 	p, ok := v.(*ssa.Phi)
 	return p, ok
+}
+
+// checkAsciiLower: R1 treats asciiLower as position-preserving. Its body must make that true: the
+// result is the argument itself or string(b) of a byte copy of it, and every byte stored into that
+// copy is computed from the byte loaded from the same slice at the same index (a store to b[j] of a
+// value read from b[i:][j] shifts the lowered letters), under an 'A'..'Z' range test.
+func checkAsciiLower(m *Module, r *Report) {
+	fn := needFn(m, r, "C35.R4", pkgSQL, "asciiLower")
+	if fn == nil {
+		return
+	}
+	param := ssa.Value(fn.Params[0])
+	// results
+	okRes, whyRes := true, ""
+	for _, b := range fn.Blocks {
+		ret, ok := b.Instrs[len(b.Instrs)-1].(*ssa.Return)
+		if !ok {
+			continue
+		}
+		for _, o := range origins(ret.Results[0]) {
+			if strip(o) == param {
+				continue
+			}
+			cv, ok := strip(o).(*ssa.Convert)
+			if !ok {
+				okRes, whyRes = false, "returns "+describe(o)
+				continue
+			}
+			// string(b) where b = []byte(s)
+			src := false
+			for _, bo := range origins(cv.X) {
+				if c2, ok := strip(bo).(*ssa.Convert); ok && strip(c2.X) == param {
+					src = true
+				}
+			}
+			if !src {
+				okRes, whyRes = false, "the returned string is not string([]byte(s))"
+			}
+		}
+	}
+	if okRes {
+		r.ok("C35.R4", "asciiLower returns its argument or a same-length byte copy of it", m.Pos(fn.Pos()), "")
+	} else {
+		r.viol("C35.R4", "asciiLower returns its argument or a same-length byte copy of it", m.Pos(fn.Pos()), whyRes)
+	}
+	n, bad := 0, ""
+	for _, b := range fn.Blocks {
+		for _, in := range b.Instrs {
+			st, ok := in.(*ssa.Store)
+			if !ok {
+				continue
+			}
+			ia, ok := st.Addr.(*ssa.IndexAddr)
+			if !ok {
+				continue
+			}
+			n++
+			same := false
+			backSlice(st.Val, false, func(v ssa.Value) {
+				if la, ok := v.(*ssa.IndexAddr); ok && la != ia {
+					if strip(la.X) == strip(ia.X) && la.Index == ia.Index {
+						same = true
+					}
+				}
+				if ix, ok := v.(*ssa.Index); ok {
+					_ = ix
+				}
+			})
+			if !same {
+				bad = fmt.Sprintf("the byte stored at %s is not computed from the byte at the same index of the same slice (%s)", m.Pos(st.Pos()), describe(st.Val))
+			}
+		}
+	}
+	key := "asciiLower writes each lowered byte back to the position it was read from"
+	switch {
+	case n == 0:
+		r.unresolved("C35.R4", key, "no byte store found")
+	case bad != "":
+		r.viol("C35.R4", key, m.Pos(fn.Pos()), bad+": the lowered text no longer lines up with the original, so keywords are missed or positions cut the wrong place")
+	default:
+		r.ok("C35.R4", key, m.Pos(fn.Pos()), fmt.Sprintf("%d store(s)", n))
+	}
 }
